@@ -98,7 +98,8 @@ func genC18(rt *rapid.T) C18Case {
 	if *flagMode != "" {
 		c.Mode = *flagMode
 	}
-	c.Names = []string{"requests_total", "latency", "x"}[:rapid.IntRange(1, 3).Draw(rt, "nnames")]
+	// "latency" as a timer owns a histogram named "latency_duration": related names of different kinds must stay apart
+	c.Names = []string{"latency", "latency_duration", "requests_total", "x"}[:rapid.IntRange(1, 4).Draw(rt, "nnames")]
 	nts := rapid.IntRange(1, 3).Draw(rt, "ntagsets")
 	for i := 0; i < nts; i++ {
 		c.TagSets = append(c.TagSets, genTagSet(rt))
@@ -318,7 +319,13 @@ func runC18(c C18Case) *Outcome {
 	first := map[string]unsafe.Pointer{}
 	calls := 0
 	for _, r := range recs {
-		for id, ps := range r.ptrs {
+		var rids []string
+		for id := range r.ptrs {
+			rids = append(rids, id)
+		}
+		sort.Strings(rids)
+		for _, id := range rids {
+			ps := r.ptrs[id]
 			for _, p := range ps {
 				calls++
 				if q, ok := first[id]; ok && q != p {
@@ -348,7 +355,12 @@ func runC18(c C18Case) *Outcome {
 		hits += r.hits
 	}
 	val, cnt := seriesOf(sys.col.GetAllMetrics())
+	ids := make([]string, 0, len(first))
 	for id := range first {
+		ids = append(ids, id)
+	}
+	sort.Strings(ids) // the first violation reported must not depend on map iteration order
+	for _, id := range ids {
 		parts := strings.SplitN(id, "|", 3)
 		kind, name, tk := parts[0], parts[1], parts[2]
 		switch kind {
@@ -409,7 +421,13 @@ func runC18(c C18Case) *Outcome {
 	if searches > 0 && (mcnt[sT] > 1 || mcnt[sF] > 1) {
 		return fail("series-split", "searches_total is split over %d+%d series", mcnt[sT], mcnt[sF])
 	}
-	for k, n := range dbops {
+	var dks []string
+	for k := range dbops {
+		dks = append(dks, k)
+	}
+	sort.Strings(dks)
+	for _, k := range dks {
+		n := dbops[k]
 		parts := strings.SplitN(k, "|", 2)
 		key := "counter|database_operations_total|" + tagsKey(map[string]string{"operation": parts[0], "success": parts[1]})
 		if mcnt[key] != 1 {
